@@ -25,8 +25,11 @@ class Function:
     #
     # Mappings of tasks ids <-> task names
     #
-    unique_task2name: ClassVar[dict[Task, set[str]]] = {}
-    unique_name2task: ClassVar[dict[str, Task]] = {}
+    # (a name is the pair (global context name, task name): context names nest, eg scripts.a and
+    # scripts.a.b, and a task name can contain dots, so a joined string would be ambiguous)
+    #
+    unique_task2name: ClassVar[dict[Task, set[tuple[str, str]]]] = {}
+    unique_name2task: ClassVar[dict[tuple[str, str], Task]] = {}
 
     #
     # Mappings of task id to hass contexts
@@ -257,7 +260,7 @@ class Function:
 
         async def task_unique(name, kill_me=False):
             """Implement task.unique()."""
-            name = f"{ctx.get_global_ctx_name()}.{name}"
+            name = (ctx.get_global_ctx_name(), str(name))
             curr_task = asyncio.current_task()
             if name in cls.unique_name2task:
                 task = cls.unique_name2task[name]
@@ -311,15 +314,15 @@ class Function:
 
         def user_task_name2id(name=None):
             """Implement task.name2id()."""
-            prefix = f"{ctx.get_global_ctx_name()}."
+            global_ctx_name = ctx.get_global_ctx_name()
             if name is None:
                 ret = {}
-                for task_name, task_id in cls.unique_name2task.items():
-                    if task_name.startswith(prefix):
-                        ret[task_name[len(prefix) :]] = task_id
+                for (task_ctx_name, task_name), task_id in cls.unique_name2task.items():
+                    if task_ctx_name == global_ctx_name:
+                        ret[task_name] = task_id
                 return ret
-            if prefix + name in cls.unique_name2task:
-                return cls.unique_name2task[prefix + name]
+            if (global_ctx_name, name) in cls.unique_name2task:
+                return cls.unique_name2task[(global_ctx_name, name)]
             raise NameError(f"task name '{name}' is unknown")
 
         return user_task_name2id
@@ -338,8 +341,7 @@ class Function:
     @classmethod
     def unique_name_used(cls, ctx, name):
         """Return whether the current unique name is in use."""
-        name = f"{ctx.get_global_ctx_name()}.{name}"
-        return name in cls.unique_name2task
+        return (ctx.get_global_ctx_name(), str(name)) in cls.unique_name2task
 
     @classmethod
     def service_has_service(cls, domain, name):
